@@ -476,6 +476,14 @@ class Fec:
                             ctx.fail("serialised-word-not-a-code-word", {"pdu": "emb", "fields": [cc, pi, str(lc)], "received": barg(w)}, "an EMB built from fields serialises to a word that is not a QR(16,7) code word", expected="a code word", actual=barg(w))
                         if is_err(p) or not p.emb_parity_ok or not o.emb_parity_ok:
                             ctx.fail("selfcheck", {"pdu": "emb", "fields": [cc, pi, str(lc)]}, "an EMB built from fields does not parse back with emb_parity_ok", expected=True, actual=str(p if is_err(p) else p.emb_parity_ok))
+            # a GIVEN parity around and beyond the 9-bit field: from 2^9 on as_bits() (called by the constructor for its
+            # verdict) raises OverflowError in int2ba(…, length=9); the model's embInit raises the same class
+            for cc, pi, lc in [(0, 0, 0), (1, 0, 3), (7, 1, 2), (15, 1, 1), (16, 0, 0), (3, 2, 0), (3, 0, 4)]:
+                for par in (1, 511, 512, 600, 2 ** 20):
+                    o = call(self.cls, cc, pi, lc, par)
+                    w = call(lambda: o.as_bits()) if not is_err(o) else o
+                    ctx.case((self.kind, "given-parity", cc, pi, lc, par))
+                    pairs.append((f"emb.new {cc} {pi} {lc} {par}", o if is_err(o) else f"{b01(o.emb_parity_ok)} {barg(w)}"))
         if not ctx.search_only and ctx.driver_ok:
             ctx.correspond(f"{self.kind}.constructor", pairs)
 
